@@ -48,6 +48,7 @@ type dfacts struct {
 	guardMonitor                      string
 	stages                            []string
 	roles                             roleFacts
+	replaceOutdated                   bool
 	loopText                          string
 }
 
@@ -149,7 +150,145 @@ func lenTerm(e ast.Expr) (string, bool) {
 	return "", false
 }
 
-func leaderFacts(fset *token.FileSet, fd *ast.FuncDecl, out *dfacts) error {
+// endsInContinueOrReturn: the block's last statement leaves the iteration
+func endsInContinueOrReturn(b *ast.BlockStmt) bool {
+	if len(b.List) == 0 {
+		return false
+	}
+	switch s := b.List[len(b.List)-1].(type) {
+	case *ast.BranchStmt:
+		return s.Tok == token.CONTINUE
+	case *ast.ReturnStmt:
+		return true
+	}
+	return false
+}
+
+// isMajorityExpr: smartcontract.GetMajorityHonestNodeCount(len(<c>)) or len(<c>) - (len(<c>)-1)/2, <c> satisfying isC
+func isMajorityExpr(e ast.Expr, isC func(ast.Expr) bool) bool {
+	lenOfC := func(x ast.Expr) bool {
+		c, ok := x.(*ast.CallExpr)
+		if !ok || len(c.Args) != 1 {
+			return false
+		}
+		id, ok := c.Fun.(*ast.Ident)
+		return ok && id.Name == "len" && isC(c.Args[0])
+	}
+	switch x := e.(type) {
+	case *ast.ParenExpr:
+		return isMajorityExpr(x.X, isC)
+	case *ast.CallExpr:
+		if sel, ok := x.Fun.(*ast.SelectorExpr); ok && sel.Sel.Name == "GetMajorityHonestNodeCount" && len(x.Args) == 1 {
+			return lenOfC(x.Args[0])
+		}
+	case *ast.BinaryExpr: // len(c) - (len(c)-1)/2
+		if x.Op == token.SUB && lenOfC(x.X) {
+			if p, ok := x.Y.(*ast.BinaryExpr); ok && p.Op == token.QUO {
+				if two, ok := intLit(p.Y); ok && two == 2 {
+					q := p.X
+					if pe, ok := q.(*ast.ParenExpr); ok {
+						q = pe.X
+					}
+					if d, ok := q.(*ast.BinaryExpr); ok && d.Op == token.SUB && lenOfC(d.X) {
+						one, ok := intLit(d.Y)
+						return ok && one == 1
+					}
+				}
+			}
+		}
+	}
+	return false
+}
+
+// isMajorityVar: the variable `name` of function fd holds the majority count of prm.committee: it is defined by a majority
+// expression over prm.committee, or it is a result of a call of a same-package helper that receives prm.committee and returns,
+// at that position, a variable defined by a majority expression over the corresponding parameter (followed ONE level).
+func isMajorityVar(fd *ast.FuncDecl, name string, pkgFuncs map[string]*ast.FuncDecl) bool {
+	found := false
+	ast.Inspect(fd.Body, func(x ast.Node) bool {
+		as, ok := x.(*ast.AssignStmt)
+		if !ok || as.Tok != token.DEFINE || len(as.Rhs) != 1 {
+			return true
+		}
+		pos := -1
+		for i, l := range as.Lhs {
+			if id, ok := l.(*ast.Ident); ok && id.Name == name {
+				pos = i
+			}
+		}
+		if pos < 0 {
+			return true
+		}
+		if len(as.Lhs) == 1 && isMajorityExpr(as.Rhs[0], isCommittee) {
+			found = true
+			return false
+		}
+		call, ok := as.Rhs[0].(*ast.CallExpr)
+		if !ok {
+			return true
+		}
+		fid, ok := call.Fun.(*ast.Ident)
+		if !ok {
+			return true
+		}
+		h, ok := pkgFuncs[fid.Name]
+		if !ok || h.Body == nil || h.Type.Results == nil {
+			return true
+		}
+		// which parameter of the helper receives prm.committee
+		var params []string
+		for _, f := range h.Type.Params.List {
+			for _, n := range f.Names {
+				params = append(params, n.Name)
+			}
+		}
+		cparam := ""
+		for i, a := range call.Args {
+			if isCommittee(a) && i < len(params) {
+				cparam = params[i]
+			}
+		}
+		if cparam == "" {
+			return true
+		}
+		isParam := func(e ast.Expr) bool { id, ok := e.(*ast.Ident); return ok && id.Name == cparam }
+		// variables of the helper defined by a majority expression over that parameter
+		maj := map[string]bool{}
+		ast.Inspect(h.Body, func(y ast.Node) bool {
+			if a, ok := y.(*ast.AssignStmt); ok && a.Tok == token.DEFINE && len(a.Lhs) == 1 && len(a.Rhs) == 1 && isMajorityExpr(a.Rhs[0], isParam) {
+				maj[a.Lhs[0].(*ast.Ident).Name] = true
+			}
+			return true
+		})
+		// every successful return (last result nil) hands such a variable (or the expression itself) out at position pos
+		okReturns, badReturns := 0, 0
+		ast.Inspect(h.Body, func(y ast.Node) bool {
+			if _, isLit := y.(*ast.FuncLit); isLit {
+				return false
+			}
+			r, ok := y.(*ast.ReturnStmt)
+			if !ok || len(r.Results) <= pos {
+				return true
+			}
+			if last, ok := r.Results[len(r.Results)-1].(*ast.Ident); ok && last.Name == "nil" {
+				if id, ok := r.Results[pos].(*ast.Ident); (ok && maj[id.Name]) || isMajorityExpr(r.Results[pos], isParam) {
+					okReturns++
+				} else {
+					badReturns++
+				}
+			}
+			return true
+		})
+		if okReturns > 0 && badReturns == 0 {
+			found = true
+			return false
+		}
+		return true
+	})
+	return found
+}
+
+func leaderFacts(fset *token.FileSet, fd *ast.FuncDecl, pkgFuncs map[string]*ast.FuncDecl, out *dfacts) error {
 	const domFn = "designateNotarySignatureDomainForMember"
 	var loop ast.Stmt
 	var loopVar string
@@ -247,43 +386,62 @@ func leaderFacts(fset *token.FileSet, fd *ast.FuncDecl, out *dfacts) error {
 	}
 	out.domOff = off
 	// key index: prm.committee[X].VerifyHashable(...)
-	keySeen, storeSeen := false, false
+	where := func(n ast.Node) string {
+		return fmt.Sprintf("deploy/notary.go:%d-%d", fset.Position(n.Pos()).Line, fset.Position(n.End()).Line)
+	}
+	// 1. verification: prm.committee[i+c].VerifyHashable(<sig>, …); the statement whose failure branch skips the member
+	var verify *ast.CallExpr
+	var verifyIf *ast.IfStmt
 	var ferr error
 	ast.Inspect(body, func(x ast.Node) bool {
-		switch e := x.(type) {
-		case *ast.CallExpr:
-			if sel, ok := e.Fun.(*ast.SelectorExpr); ok && sel.Sel.Name == "VerifyHashable" {
-				ix, ok := sel.X.(*ast.IndexExpr)
-				if !ok || !isCommittee(ix.X) {
-					ferr = fmt.Errorf("leader loop: VerifyHashable is not called on prm.committee[...]")
-					return false
-				}
-				o, ok := offsetOf(ix.Index, loopVar)
-				if !ok {
-					ferr = fmt.Errorf("leader loop: key index %q is not %s+c", exprStr(fset, ix.Index), loopVar)
-					return false
-				}
-				out.keyOff, keySeen = o, true
+		if is, ok := x.(*ast.IfStmt); ok {
+			if cs := callsNamed(is.Cond, "VerifyHashable"); len(cs) == 1 && verifyIf == nil {
+				verifyIf = is
 			}
-		case *ast.AssignStmt:
-			if len(e.Lhs) == 1 {
-				if ix, ok := e.Lhs[0].(*ast.IndexExpr); ok {
-					if id, ok := ix.X.(*ast.Ident); ok && id.Name == "mCommitteeIndexToSignature" {
-						o, ok := offsetOf(ix.Index, loopVar)
-						if !ok {
-							ferr = fmt.Errorf("leader loop: store index %q is not %s+c", exprStr(fset, ix.Index), loopVar)
+		}
+		if e, ok := x.(*ast.CallExpr); ok && verify == nil {
+			if sel, ok := e.Fun.(*ast.SelectorExpr); ok && sel.Sel.Name == "VerifyHashable" {
+				verify = e
+			}
+		}
+		return true
+	})
+	if verify == nil || verifyIf == nil {
+		return fmt.Errorf("fact leaderKeyOff: no `if !prm.committee[…].VerifyHashable(…) {…}` in the leader's collection loop (%s of initDesignateNotaryRoleAsLeaderTick)", where(body))
+	}
+	{
+		sel := verify.Fun.(*ast.SelectorExpr)
+		ix, ok := sel.X.(*ast.IndexExpr)
+		if !ok || !isCommittee(ix.X) {
+			return fmt.Errorf("fact leaderKeyOff: VerifyHashable is not called on prm.committee[…] (%s)", where(verify))
+		}
+		o, ok := offsetOf(ix.Index, loopVar)
+		if !ok {
+			return fmt.Errorf("fact leaderKeyOff: key index %q is not %s+c (%s)", exprStr(fset, ix.Index), loopVar, where(verify))
+		}
+		out.keyOff = o
+	}
+	if u, ok := verifyIf.Cond.(*ast.UnaryExpr); !ok || u.Op != token.NOT || !endsInContinueOrReturn(verifyIf.Body) {
+		return fmt.Errorf("fact leaderStoreOff: the verification is not of the form `if !…VerifyHashable(…) { … continue }` (%s)", where(verifyIf))
+	}
+	sigVar, ok := verify.Args[0].(*ast.Ident)
+	if len(verify.Args) == 0 || !ok {
+		return fmt.Errorf("fact leaderStoreOff: the verified signature is not a variable (%s)", where(verify))
+	}
+	// 2. store: `<container>[i+c] = <sig>` AFTER the verification statement (so only verified signatures are stored), the
+	// container being a map or a slice
+	var store *ast.AssignStmt
+	container := ""
+	ast.Inspect(body, func(x ast.Node) bool {
+		if as, ok := x.(*ast.AssignStmt); ok && len(as.Lhs) == 1 && len(as.Rhs) == 1 && as.Tok == token.ASSIGN {
+			if ix, ok := as.Lhs[0].(*ast.IndexExpr); ok {
+				if r, ok := as.Rhs[0].(*ast.Ident); ok && r.Name == sigVar.Name {
+					if c, ok := ix.X.(*ast.Ident); ok {
+						if store != nil {
+							ferr = fmt.Errorf("fact leaderStoreOff: the signature is stored twice (%s, %s)", where(store), where(as))
 							return false
 						}
-						out.storeOff, storeSeen = o, true
-					}
-				}
-			}
-		case *ast.IfStmt:
-			// if len(mCommitteeIndexToSignature) == needRemoteSignatures { break }
-			if b, ok := e.Cond.(*ast.BinaryExpr); ok && b.Op == token.EQL && len(e.Body.List) == 1 {
-				if br, ok := e.Body.List[0].(*ast.BranchStmt); ok && br.Tok == token.BREAK {
-					if strings.Contains(exprStr(fset, b), "len(mCommitteeIndexToSignature) == needRemoteSignatures") {
-						out.breakEnough = true
+						store, container = as, c.Name
 					}
 				}
 			}
@@ -293,14 +451,94 @@ func leaderFacts(fset *token.FileSet, fd *ast.FuncDecl, out *dfacts) error {
 	if ferr != nil {
 		return ferr
 	}
-	if !keySeen || !storeSeen {
-		return fmt.Errorf("leader loop: verification (%v) or map store (%v) not found", keySeen, storeSeen)
+	if store == nil {
+		return fmt.Errorf("fact leaderStoreOff: no `<map or slice>[%s+c] = %s` in the leader's collection loop (%s of initDesignateNotaryRoleAsLeaderTick)", loopVar, sigVar.Name, where(body))
 	}
-	// needRemoteSignatures := committeeMultiSigM - 1 ; committeeMultiSigM := smartcontract.GetMajorityHonestNodeCount(len(prm.committee))
+	if store.Pos() < verifyIf.End() {
+		return fmt.Errorf("fact leaderStoreOff: the signature is stored (%s) before it is verified (%s)", where(store), where(verifyIf))
+	}
+	if o, ok := offsetOf(store.Lhs[0].(*ast.IndexExpr).Index, loopVar); ok {
+		out.storeOff = o
+	} else {
+		return fmt.Errorf("fact leaderStoreOff: store index %q is not %s+c (%s)", exprStr(fset, store.Lhs[0].(*ast.IndexExpr).Index), loopVar, where(store))
+	}
+	// container kind from its declaration in the function: map[int][]byte or [][]byte
+	containerIsMap, declared := false, false
+	ast.Inspect(fd.Body, func(x ast.Node) bool {
+		if vs, ok := x.(*ast.ValueSpec); ok {
+			for _, nm := range vs.Names {
+				if nm.Name == container && vs.Type != nil {
+					switch t := vs.Type.(type) {
+					case *ast.MapType:
+						containerIsMap, declared = true, true
+					case *ast.ArrayType:
+						if t.Len == nil {
+							containerIsMap, declared = false, true
+						}
+					}
+				}
+			}
+		}
+		return true
+	})
+	if !declared {
+		return fmt.Errorf("fact appendSorted: `var %s map[…]…` / `var %s []…` not found in initDesignateNotaryRoleAsLeaderTick (%s)", container, container, where(fd.Body))
+	}
+	// 3. the number of remote signatures waited for: `need := M - 1` with M the majority count of the committee, computed here
+	// or returned by a same-package helper (followed one level)
+	needVar := ""
+	ast.Inspect(fd.Body, func(x ast.Node) bool {
+		if as, ok := x.(*ast.AssignStmt); ok && len(as.Lhs) == 1 && len(as.Rhs) == 1 && as.Tok == token.DEFINE {
+			if be, ok := as.Rhs[0].(*ast.BinaryExpr); ok && be.Op == token.SUB {
+				if one, ok := intLit(be.Y); ok && one == 1 {
+					if m, ok := be.X.(*ast.Ident); ok && isMajorityVar(fd, m.Name, pkgFuncs) {
+						needVar = as.Lhs[0].(*ast.Ident).Name
+					}
+				}
+			}
+		}
+		return true
+	})
+	out.needMinusOne = needVar != ""
+	if needVar == "" {
+		return fmt.Errorf("fact needRemoteIsMajorityMinusOne: no `need := M - 1` with M = smartcontract.GetMajorityHonestNodeCount(len(prm.committee)) (directly or through a same-package helper called with prm.committee) in initDesignateNotaryRoleAsLeaderTick (%s)", where(fd.Body))
+	}
+	// 4. the loop is left when enough are collected: `if <count> == need { break }` (or >=) in the loop body after the store,
+	// <count> being len(<container>) or a counter that is incremented in the loop body
+	ast.Inspect(body, func(x ast.Node) bool {
+		is, ok := x.(*ast.IfStmt)
+		if !ok || len(is.Body.List) != 1 || is.Pos() < store.Pos() {
+			return true
+		}
+		br, ok := is.Body.List[0].(*ast.BranchStmt)
+		b, ok2 := is.Cond.(*ast.BinaryExpr)
+		if !ok || !ok2 || br.Tok != token.BREAK || (b.Op != token.EQL && b.Op != token.GEQ) {
+			return true
+		}
+		if id, ok := b.Y.(*ast.Ident); !ok || id.Name != needVar {
+			return true
+		}
+		switch c := b.X.(type) {
+		case *ast.CallExpr: // len(container)
+			if f, ok := c.Fun.(*ast.Ident); ok && f.Name == "len" && len(c.Args) == 1 {
+				if a, ok := c.Args[0].(*ast.Ident); ok && a.Name == container {
+					out.breakEnough = true
+				}
+			}
+		case *ast.Ident: // a counter incremented in the loop body
+			ast.Inspect(body, func(y ast.Node) bool {
+				if inc, ok := y.(*ast.IncDecStmt); ok && inc.Tok == token.INC {
+					if v, ok := inc.X.(*ast.Ident); ok && v.Name == c.Name {
+						out.breakEnough = true
+					}
+				}
+				return true
+			})
+		}
+		return true
+	})
+	// 5. order of appending: the loop that copies signatures into the invocation script
 	src := exprStr(fset, fd)
-	out.needMinusOne = strings.Contains(src, "needRemoteSignatures := committeeMultiSigM - 1") &&
-		strings.Contains(src, "committeeMultiSigM := smartcontract.GetMajorityHonestNodeCount(len(prm.committee))")
-	// order of appending: the loop that copies signatures into the invocation script
 	var appendLoops []*ast.RangeStmt
 	ast.Inspect(fd.Body, func(x ast.Node) bool {
 		if r, ok := x.(*ast.RangeStmt); ok && containsCall(r.Body, "copy") != nil {
@@ -309,24 +547,36 @@ func leaderFacts(fset *token.FileSet, fd *ast.FuncDecl, out *dfacts) error {
 		return true
 	})
 	if len(appendLoops) != 1 {
-		return fmt.Errorf("leader: %d loops copy signatures into the script, expected 1", len(appendLoops))
+		return fmt.Errorf("fact appendSorted: %d loops copy signatures into the witness script, expected 1 (%s)", len(appendLoops), where(fd.Body))
 	}
 	switch x := appendLoops[0].X.(type) {
 	case *ast.Ident:
-		if x.Name == "mCommitteeIndexToSignature" {
+		switch {
+		case x.Name == container && containerIsMap:
 			out.sorted = false // Go map iteration order
-		} else {
-			// ranged over a slice: it must be the sorted list of the map's keys
+		case x.Name == container:
+			out.sorted = true // a slice indexed by committee index is walked in increasing index
+		default:
+			// ranged over another slice: it must be the sorted list of the map's keys
 			sortedCall := strings.Contains(src, "slices.Sort("+x.Name+")") || strings.Contains(src, "sort.Ints("+x.Name+")")
-			fromMap := strings.Contains(src, "for i := range mCommitteeIndexToSignature {\n\t\t\t\t"+x.Name+" = append("+x.Name+", i)") ||
-				strings.Contains(src, x.Name+" = append("+x.Name+", i)")
-			if !fromMap {
-				return fmt.Errorf("leader: append loop ranges over %s which is not built from the map's keys", x.Name)
+			keyVar := ""
+			ast.Inspect(fd.Body, func(y ast.Node) bool {
+				if r, ok := y.(*ast.RangeStmt); ok {
+					if c, ok := r.X.(*ast.Ident); ok && c.Name == container {
+						if k, ok := r.Key.(*ast.Ident); ok && strings.Contains(exprStr(fset, r.Body), x.Name+" = append("+x.Name+", "+k.Name+")") {
+							keyVar = k.Name
+						}
+					}
+				}
+				return true
+			})
+			if keyVar == "" {
+				return fmt.Errorf("fact appendSorted: the append loop ranges over %s which is not built from the keys of %s (%s)", x.Name, container, where(appendLoops[0]))
 			}
 			out.sorted = sortedCall
 		}
 	default:
-		return fmt.Errorf("leader: unsupported range in the append loop")
+		return fmt.Errorf("fact appendSorted: unsupported range expression in the append loop (%s)", where(appendLoops[0]))
 	}
 	// which monitor guards the sending: `if X.isPending() {...} else if triedDesignateRoleTx {`
 	ast.Inspect(fd.Body, func(x ast.Node) bool {
@@ -344,7 +594,7 @@ func leaderFacts(fset *token.FileSet, fd *ast.FuncDecl, out *dfacts) error {
 		return true
 	})
 	if out.guardMonitor == "" {
-		return fmt.Errorf("leader: guard `if <monitor>.isPending() ... else if triedDesignateRoleTx` not found")
+		return fmt.Errorf("fact designateGuardMonitor: guard `if <monitor>.isPending() ... else if triedDesignateRoleTx` not found in initDesignateNotaryRoleAsLeaderTick (%s)", where(fd.Body))
 	}
 	return nil
 }
@@ -549,6 +799,46 @@ func extractRoleFacts(dep, notary, alphabet *ast.File, out *roleFacts) error {
 	return nil
 }
 
+// signerReplaces: in the signer's tick the flag `recordExists` (true: re-sign with setRecord(id 0), false: with addRecord)
+// must be set for EVERY record found under the member's own domain, i.e. `recordExists = true` is a statement of the
+// else-block of the `if err != nil` that follows the lookup of that domain — then an outdated record is replaced. When the
+// assignment sits deeper (e.g. only where the checksum matches) an outdated record is re-signed with addRecord.
+func signerReplaces(fd *ast.FuncDecl) (bool, error) {
+	var stack []ast.Node
+	found, top := 0, false
+	ast.Inspect(fd.Body, func(x ast.Node) bool {
+		if x == nil {
+			stack = stack[:len(stack)-1]
+			return true
+		}
+		if as, ok := x.(*ast.AssignStmt); ok && len(as.Lhs) == 1 && len(as.Rhs) == 1 && as.Tok == token.ASSIGN {
+			l, ok1 := as.Lhs[0].(*ast.Ident)
+			r, ok2 := as.Rhs[0].(*ast.Ident)
+			if ok1 && ok2 && l.Name == "recordExists" && r.Name == "true" {
+				found++
+				// parent block and the if statement it is the else-branch of
+				if len(stack) >= 2 {
+					blk, ok := stack[len(stack)-1].(*ast.BlockStmt)
+					ifs, ok2 := stack[len(stack)-2].(*ast.IfStmt)
+					if ok && ok2 && ifs.Else == blk {
+						if c, ok := ifs.Cond.(*ast.BinaryExpr); ok && c.Op == token.NEQ {
+							if id, ok := c.X.(*ast.Ident); ok && id.Name == "err" {
+								top = true
+							}
+						}
+					}
+				}
+			}
+		}
+		stack = append(stack, x)
+		return true
+	})
+	if found != 1 {
+		return false, fmt.Errorf("fact signerReplacesOutdatedRecord: %d assignments `recordExists = true` in initDesignateNotaryRoleAsSignerTick, expected 1", found)
+	}
+	return top, nil
+}
+
 func deployFacts(repo, outPath string) error {
 	fset := token.NewFileSet()
 	parse := func(name string) (*ast.File, error) {
@@ -563,7 +853,32 @@ func deployFacts(repo, outPath string) error {
 	if lf == nil {
 		return fmt.Errorf("initDesignateNotaryRoleAsLeaderTick not found")
 	}
-	if err := leaderFacts(fset, lf, &out); err != nil {
+	// all top-level functions of the package (helpers are followed one level)
+	pkgFuncs := map[string]*ast.FuncDecl{}
+	ents, err := os.ReadDir(filepath.Join(repo, "deploy"))
+	if err != nil {
+		return err
+	}
+	for _, e := range ents {
+		n := e.Name()
+		if e.IsDir() || !strings.HasSuffix(n, ".go") || strings.HasSuffix(n, "_test.go") {
+			continue
+		}
+		f, err := parse(n)
+		if err != nil {
+			return err
+		}
+		for _, d := range f.Decls {
+			if fd, ok := d.(*ast.FuncDecl); ok && fd.Recv == nil {
+				pkgFuncs[fd.Name.Name] = fd
+			}
+		}
+	}
+	if err := leaderFacts(fset, lf, pkgFuncs, &out); err != nil {
+		if !strings.HasPrefix(err.Error(), "fact ") {
+			err = fmt.Errorf("fact leaderLoopLo/leaderLoopHi/leaderDomainOff (collection loop of initDesignateNotaryRoleAsLeaderTick, deploy/notary.go:%d-%d): %w",
+				fset.Position(lf.Pos()).Line, fset.Position(lf.End()).Line, err)
+		}
 		return err
 	}
 	sf := findFunc(notary, "initDesignateNotaryRoleAsSignerTick")
@@ -590,6 +905,9 @@ func deployFacts(repo, outPath string) error {
 		return fmt.Errorf("signer: domain index %q is not prm.localAccCommitteeIndex+c", exprStr(fset, arg))
 	}
 	out.sdOff = sdOff
+	if out.replaceOutdated, err = signerReplaces(sf); err != nil {
+		return err
+	}
 	// leader index: enableNotary: `if prm.localAccCommitteeIndex == 0 { ...AsLeaderTick`
 	en := findFunc(notary, "enableNotary")
 	if en == nil {
@@ -660,7 +978,7 @@ func deployFacts(repo, outPath string) error {
 		return err
 	}
 	if err := extractRoleFacts(dep, notary, alphaf, &out.roles); err != nil {
-		return err
+		return fmt.Errorf("fact precheckRoles/guardOf…/loopRoleOf…/roleDesignatedBy…/roleNeededByVote (checkCommitteeRoles and Deploy in deploy/deploy.go, enableNotary in notary.go, designateNeoFSAlphabet and initVoteForAlphabet in alphabet.go): %w", err)
 	}
 	var b strings.Builder
 	b.WriteString("/-! GENERATED by /verif/extract (deployfacts) from deploy/notary.go, deploy/deploy.go, deploy/nns.go of the\nrepository under test. Do not edit. Leader loop as found: `" + out.loopText + "` -/\nnamespace NeoFS.Generated.DeployFacts\n\n")
@@ -674,12 +992,13 @@ func deployFacts(repo, outPath string) error {
 	fmt.Fprintf(&b, "/-- one past the last loop index -/\ndef leaderLoopHi (%s : Nat) : Nat := %s\n", unused(out.hiNat), out.hiNat)
 	fmt.Fprintf(&b, "/-- the leader reads signature domain `i + leaderDomainOff` -/\ndef leaderDomainOff : Nat := %d\n", out.domOff)
 	fmt.Fprintf(&b, "/-- ... verifies it with committee key `i + leaderKeyOff` -/\ndef leaderKeyOff : Nat := %d\n", out.keyOff)
-	fmt.Fprintf(&b, "/-- ... and stores it under map key `i + leaderStoreOff` -/\ndef leaderStoreOff : Nat := %d\n", out.storeOff)
+	fmt.Fprintf(&b, "/-- ... and, only after it verified, stores it under index `i + leaderStoreOff` of its per-member container (map or slice) -/\ndef leaderStoreOff : Nat := %d\n", out.storeOff)
 	fmt.Fprintf(&b, "/-- signer `j` publishes under signature domain `j + signerDomainOff` -/\ndef signerDomainOff : Nat := %d\n", out.sdOff)
+	fmt.Fprintf(&b, "/-- a signer re-signs a record that belongs to outdated shared data with setRecord(id 0) (`recordExists` is set for every\nrecord found under its own domain); false: with addRecord, which NNS appends as record #1 -/\ndef signerReplacesOutdatedRecord : Bool := %v\n", out.replaceOutdated)
 	fmt.Fprintf(&b, "/-- collected signatures are appended in ascending committee index (false: Go map order) -/\ndef appendSorted : Bool := %v\n", out.sorted)
 	fmt.Fprintf(&b, "def leaderIndex : Nat := %d\n", out.leaderIndex)
 	fmt.Fprintf(&b, "/-- needRemoteSignatures = GetMajorityHonestNodeCount(len(committee)) - 1 -/\ndef needRemoteIsMajorityMinusOne : Bool := %v\n", out.needMinusOne)
-	fmt.Fprintf(&b, "/-- the collection loop is left as soon as enough signatures are there -/\ndef breakWhenEnough : Bool := %v\n", out.breakEnough)
+	fmt.Fprintf(&b, "/-- the collection loop is left as soon as the number of stored signatures (len of the map, or a counter) reaches the needed one -/\ndef breakWhenEnough : Bool := %v\n", out.breakEnough)
 	fmt.Fprintf(&b, "/-- transaction monitor asked before the designation transaction is (re)sent -/\ndef designateGuardMonitor : String := %s\n", leanStr(out.guardMonitor))
 	parts := make([]string, len(out.stages))
 	for i, s := range out.stages {
